@@ -199,28 +199,30 @@ func TestC20(t *testing.T) {
 		for k := 0; k < g.Range(3, 8); k++ {
 			reloadAt[g.Range(1, nlines-1)] = true
 		}
-		var rwg sync.WaitGroup
-		for s := 0; s < nlines; s++ {
-			if reloadAt[s] {
-				version++
-				v := version
-				rwg.Add(1)
-				// the reload races with the lines that follow
-				go func() {
-					defer rwg.Done()
-					if err := rt.CompileAndRun(prog, strings.NewReader(fmt.Sprintf(progV, v))); err != nil {
-						t.Error(err)
+		r.Guard(fmt.Sprintf("run %d: feeding the lines, the reloads, and runtime shutdown after the line channel was closed", run), func() {
+			var rwg sync.WaitGroup
+			for s := 0; s < nlines; s++ {
+				if reloadAt[s] {
+					version++
+					v := version
+					rwg.Add(1)
+					// the reload races with the lines that follow
+					go func() {
+						defer rwg.Done()
+						if err := rt.CompileAndRun(prog, strings.NewReader(fmt.Sprintf(progV, v))); err != nil {
+							t.Error(err)
+						}
+					}()
+					if g.Bool() {
+						time.Sleep(time.Duration(g.Intn(2000)) * time.Microsecond)
 					}
-				}()
-				if g.Bool() {
-					time.Sleep(time.Duration(g.Intn(2000)) * time.Microsecond)
 				}
+				lines <- logline.New(nil, "log", strconv.Itoa(s))
 			}
-			lines <- logline.New(nil, "log", strconv.Itoa(s))
-		}
-		rwg.Wait()
-		close(lines)
-		wg.Wait()
+			rwg.Wait()
+			close(lines)
+			wg.Wait()
+		}, "vm.(*VM).Run", "runtime.(*Runtime).CompileAndRun")
 		cur.Store(nil)
 		rec.mu.Lock()
 		evs := append([]event{}, rec.events...)
